@@ -18,9 +18,64 @@ THEOREMS = [
 ]
 COMPONENTS = ['fixWindow vs Portfolio.setup_optim_problem(fix_time_window=...) (bounds, fixed variable set)']
 RULE = ('random portfolios incl. transports, multi-commodity, CHP with fuel, coarse assets, order books (several mapping rows per variable); window as index mask or date; '
+        'second stream (idx*): window as Python list / int64 array / int32 array of time step INDICES or as the equivalent boolean mask, shapes: only step 0, '
+        'step 0 among others, one single other step, the last step, unsorted with duplicates (with and without step 0), all steps, empty (list, integer array, all-False mask); '
+        'every such window goes through the unsplit AND (T >= 4) the split set-up; '
         'new random prices; non-trivial = window fixes some but not all variables and the previous solution has non-zero fixed entries; distinct by scenario hash')
 ASSUMPTIONS = ['re-optimised values compared with tolerance 1e-6 relative']
-EXPLANATION = 'theorems about the model fixWindow; correspondence of the produced bounds; oracle: re-optimise the real problem with new prices (fixed entries equal) and with old prices (value unchanged)'
+EXPLANATION = ('theorems about the model fixWindow; correspondence of the produced bounds; oracle: exactly the variables with a mapping row whose step lies in the window have both bounds at the previous value, '
+               'all other bounds, costs and restrictions are those of the problem without window (unsplit and split set-up; the set of steps of a window given as indices is the set of its entries); '
+               're-optimise the real problem with new prices (fixed entries equal) and with old prices (value unchanged)')
+
+# an EMPTY PYTHON LIST `[]` as window in the SPLIT set-up used to raise IndexError inside eaopack (np.asarray([]) is float64); repaired
+# in /repo (359f616, finding F-15d).  The idx stream gives `[]` to the split set-up as it is (a raise is what='split_raises');
+# False would hand it over as empty integer array instead (development switch only).
+SPLIT_EMPTY_LIST = True
+
+IDX_SHAPES = ['only0', 'zero+others', 'single', 'unsorted-dup', 'only0', 'last', 'zero+others', 'unsorted-dup0', 'empty', 'all']
+
+
+def draw_index_window(r2, T, shape):
+    """a window as list of time step indices (0 <= index < T) of the given shape, and the forms in which it can be handed over"""
+    others = list(range(1, T))
+    forms = ['list', 'array', 'array32', 'bool']
+    if shape == 'only0':
+        idx = [0]
+    elif shape == 'zero+others':
+        idx = [0] + sorted(r2.sample(others, r2.randint(1, max(1, min(len(others), 1 + T // 2))))) if others else [0]
+    elif shape == 'single':
+        idx = [r2.choice(others)] if others else [0]
+    elif shape == 'last':
+        idx = [T - 1]
+    elif shape in ('unsorted-dup', 'unsorted-dup0'):
+        base = r2.sample(others, r2.randint(1, max(1, min(len(others), 1 + T // 2)))) if others else []
+        if shape == 'unsorted-dup0' or not base:
+            base.append(0)
+        idx = base + [r2.choice(base) for _ in range(r2.randint(1, 3))]
+        for _ in range(8):
+            r2.shuffle(idx)
+            if idx != sorted(idx) or len(set(idx)) == 1:
+                break
+        forms = ['list', 'array', 'array32']          # order and repetition cannot be written as a mask
+    elif shape == 'empty':
+        idx = []
+    else:
+        idx = list(range(T))
+    return idx, forms
+
+
+def window_arg(fx, T):
+    """a fresh object for fix_time_window['I'] of an index window in its form"""
+    idx, form = list(fx['idx']), fx['form']
+    if form == 'list':
+        return [int(i) for i in idx]
+    if form == 'array':
+        return np.array(idx, dtype=np.int64)
+    if form == 'array32':
+        return np.array(idx, dtype=np.int32)
+    m = np.zeros(T, dtype=bool)
+    m[np.array(idx, dtype=np.int64)] = True
+    return m
 
 
 def scenarios(seed, tier):
@@ -44,6 +99,20 @@ def scenarios(seed, tier):
         s['fix'] = {'mode': mode, 'mask': mask, 'k': k}
         s['prices2'] = {key: [gen.q8(r2, -4, 20) if key.startswith('p') else v for v in vals] for key, vals in s['prices'].items()}
         yield 'gen%d' % i, s
+    # second stream: the window as list / array of time step INDICES (or the equivalent mask) of every shape, each through the unsplit
+    # and the split set-up
+    n2 = 240 if tier == 'quick' else 1500
+    rnd2 = random.Random(seed * 104729 + 1515)
+    for i in range(n2):
+        r2 = random.Random(rnd2.getrandbits(48))
+        s = gen.gen_portfolio(r2, tmax=10 if tier == 'quick' else 16, tz_prob=0.1, tmin=2 if i % 5 == 4 else 4,
+                              kinds=['simple', 'contract', 'transport', 'ext_transport', 'storage', 'storage2', 'multi', 'orderbook', 'plant', 'chp', 'scaled'])
+        T = s['grid']['T_nominal']
+        shape = IDX_SHAPES[(i + seed) % len(IDX_SHAPES)]
+        idx, forms = draw_index_window(r2, T, shape)
+        s['fix'] = {'mode': 'index', 'mask': None, 'k': 0, 'idx': idx, 'shape': shape, 'form': r2.choice(forms)}
+        s['prices2'] = {key: [gen.q8(r2, -4, 20) if key.startswith('p') else v for v in vals] for key, vals in s['prices'].items()}
+        yield 'idx%d' % i, s
 
 
 def run_case(scn, drv):
@@ -79,6 +148,15 @@ def run_case(scn, drv):
         elif d.tzinfo is not None:
             feats.append('window-date-in-grid-zone')
         mask = np.asarray(tg.timepoints <= d)
+    elif fx['mode'] == 'index':
+        # indices of time steps: the window is the SET of steps named (order and repetition do not matter)
+        if any(not (0 <= int(i) < tg.T) for i in fx['idx']):
+            feats.append('skip:index-beyond-grid')
+            return r
+        mask = np.zeros(tg.T, dtype=bool)
+        mask[np.array(fx['idx'], dtype=np.int64)] = True
+        I_arg = window_arg(fx, tg.T)
+        feats.append('window-index:%s:%s' % (fx['shape'], fx['form']))
     else:
         mask = np.asarray(fx['mask'], dtype=bool)
         I_arg = mask.copy()
@@ -211,7 +289,7 @@ def run_case(scn, drv):
     # (3) old prices: value unchanged
     try:
         with Quiet():
-            op_old = portf.setup_optim_problem(rec['prices'], tg, fix_time_window={'I': I_arg if not isinstance(I_arg, np.ndarray) else I_arg.copy(), 'x': x0.copy()})
+            op_old = portf.setup_optim_problem(rec['prices'], tg, fix_time_window={'I': copy.deepcopy(I_arg), 'x': x0.copy()})
         res3 = impl.solve(op_old)
         r['evaluated'] += 1
         if isinstance(res3, str) and mip_noise:
@@ -224,29 +302,48 @@ def run_case(scn, drv):
                 viol('with unchanged prices the optimal value changed from %.8g to %.8g' % (v0, res3.value), what='value_changed')
     except Exception as e:
         viol('set-up with fix_time_window and old prices raised %s' % type(e).__name__, what='raises', err=impl.err_class(e))
-    # (4) split set-up with a window (date or index mask over the whole horizon, reaching into any interval): exactly the
-    #     variables with a step in the window are pinned to the previous (split) solution, everything else stays free
-    if tg.T >= 4 and (fx['mode'] == 'date' or len(scn['assets']) % 2 == 0):
+    # (4) split set-up with a window (date, index mask or time step indices over the whole horizon, reaching into any interval): exactly
+    #     the variables with a step in the window are pinned to the previous (split) solution, everything else stays free
+    if tg.T >= 4 and (fx['mode'] in ('date', 'index') or len(scn['assets']) % 2 == 0):
+        rs0 = None
         try:
             interval = pf.split_interval(scn, tg, parts=2 if len(op_fix.c) % 2 else 3)
+            rs0 = pf.setup_split(scn, interval)
+            pf.solve_rec(rs0)
+        except Exception as e:
+            # the split set-up WITHOUT window cannot be built for this interval size: not about the window
+            rs0 = None
+            feats.append('split-fix-error:' + impl.err_class(e))
+        if rs0 is not None and not isinstance(rs0['res'], str) and len(getattr(rs0['op'], 'ops', [])) >= 2:
             if fx['mode'] == 'date':
                 j = min(fx['k'], tg.T - 1)
                 d2 = tg.timepoints[j].to_pydatetime()
                 wsteps = set(int(t) for t in tg.I[:j + 1])
+            elif fx['mode'] == 'index':
+                d2 = window_arg(fx, tg.T)                    # list / integer array of step indices / mask, as in the unsplit set-up
+                wsteps = set(steps)
+                if fx['form'] == 'list' and not fx['idx'] and not SPLIT_EMPTY_LIST:
+                    d2 = np.array([], dtype=np.int64)        # TODO see SPLIT_EMPTY_LIST
+                    feats.append('split-fix:empty-list-as-int-array(TODO)')
             else:
                 d2 = mask.copy() if len(scn['assets']) % 4 else np.where(mask)[0]     # boolean mask or array of step indices
                 wsteps = set(steps)
-            rs0 = pf.setup_split(scn, interval)
-            pf.solve_rec(rs0)
-            if not isinstance(rs0['res'], str) and len(getattr(rs0['op'], 'ops', [])) >= 2:
-                xs = np.array(rs0['res'].x, dtype=float)
+            xs = np.array(rs0['res'].x, dtype=float)
+            op_sf = None
+            try:
                 with Quiet():
                     op_sf = rs0['portf'].setup_split_optim_problem(rs0['prices'], rs0['tg'], interval_size=interval, fix_time_window={'I': d2, 'x': xs.copy()})
+            except Exception as e:
+                viol('split set-up (interval %s) with fix_time_window raised %s: %s (the split set-up without window and the unsplit set-up with this window work)' % (
+                    interval, type(e).__name__, str(e)[:160]), what='split_raises', err=impl.err_class(e))
+            if op_sf is not None:
                 feats.append('split-fix')
+                if fx['mode'] == 'index':
+                    feats.append('split-fix-index:%s:%s' % (fx['shape'], fx['form']))
                 r['evaluated'] += 1
                 ms = op_sf.mapping
                 op_s0 = rs0['op']
-                if len(op_sf.c) != len(op_s0.c):
+                if len(op_sf.c) != len(op_s0.c) or len(op_sf.ops) != len(op_s0.ops):
                     viol('split set-up with a fixed window has %d variables, without %d' % (len(op_sf.c), len(op_s0.c)), what='split_fix_sizes')
                 else:
                     pinned = set(int(i) for i in ms.index[ms['time_step'].isin(list(wsteps))])
@@ -261,8 +358,8 @@ def run_case(scn, drv):
                             viol('split set-up: variable %d has no step in the fixed window but its bounds changed from [%s, %s] to [%s, %s]' % (
                                 v, l0[v], u0[v], lf[v], uf[v]), what='split_free_changed')
                             break
-        except Exception as e:
-            feats.append('split-fix-error:' + impl.err_class(e))
+                    if not all(np.array_equal(o1.c, o0.c) and o1.cType == o0.cType and np.array_equal(o1.b, o0.b) for o1, o0 in zip(op_sf.ops, op_s0.ops)):
+                        viol('split set-up: costs or restrictions differ between the fixed and the free problem', what='split_rest_changed')
     if m.index.duplicated().any():
         feats.append('several-rows-per-variable')
     r['nontrivial'] = 0 < len(fixed_vars) < len(op_fix.c) and bool(np.abs(x0[fixed_vars]).max() > 1e-9)
